@@ -74,7 +74,7 @@ REGISTRY["C16"] = dict(level="translation_validation", theorems=IO_THEOREMS, cas
 REGISTRY["C17"] = dict(level="other", theorems=T("C17", "C17_refines_no_event", "C17_drop_events", "C17_clone_log", "C17_boxed"), cases=P.cases_C17, projection=proj_alloc,
                        oracles=[P.o_no_alloc], extra_checks=[P.build_checks_C17],
                        explanation="runtime half: counting global allocator in the harness, allocation column compared with the model (which emits alloc only in boxed/to_vec) for every non-panicking call of the C01/C07/C08/C12/C14 case sets; build half: cargo build --no-default-features / --features alloc / default on the current tree plus a source scan that only boxed()/to_vec() name heap types (a build fact, outside any model)")
-REGISTRY["C18"] = dict(level="translation_validation", theorems=[], cases=P.cases_C18, projection=proj_behaviour,
+REGISTRY["C18"] = dict(level="translation_validation", theorems=[], lean_not_decisive=True, cases=P.cases_C18, projection=proj_behaviour,
                        oracles=[P.o_views, P.o_ledger, P.o_no_defect_panic],
                        reference_default_build=True,
                        variants=[dict(features=("unstable",), nightly=True, label="nightly+unstable")])
